@@ -228,3 +228,38 @@ Definition B64ops (t : libm_table) : FloatOps float :=
   B64opsC t (fun _ _ => VErr Unsupported).
 
 Definition B0 := B64ops [].
+
+(* Basis functions that may be handed to CurveFitting.general_fitting in
+   correspondence cases: the fixed menu of /verif/vlib/basis.py, named by the
+   VFun ids of py2coq's EXTERN_FUN.  One numeric argument; ints stay ints where
+   Python keeps them (bf_x(2) is the int 2, bf_x2(2) the int 4); sin/cos/exp go
+   through the recorded libm table exactly like math.sin etc. (m1). *)
+Definition b64_basis_call (t : libm_table) (f : val float) (args : list (val float)) : val float :=
+  let O := B64ops t in
+  match f, args with
+  | VErr e, _ => VErr e
+  | VFun id _, [x] =>
+      match x with
+      | VErr e => VErr e
+      | VBool _ | VInt _ | VFloat _ =>
+          match id with
+          | 1%positive => VFloat 0%float
+          | 2%positive => VFloat 1%float
+          | 3%positive => x
+          | 4%positive => num_mul O x x
+          | 5%positive => num_mul O (num_mul O x x) x
+          | 6%positive => m1 O Lsin x
+          | 7%positive => m1 O Lcos x
+          | 8%positive => m1 O Lsin (num_mul O (VFloat 2%float) x)
+          | 9%positive => m1 O Lcos (num_mul O (VFloat 2%float) x)
+          | 10%positive => m1 O Lexp x
+          | 11%positive => math_sqrt O x
+          | _ => VErr Unsupported
+          end
+      | _ => VErr Unsupported
+      end
+  | VFun _ _, _ => VErr TypeError
+  | _, _ => VErr TypeError
+  end.
+
+Definition B64opsB (t : libm_table) : FloatOps float := B64opsC t (b64_basis_call t).
